@@ -83,6 +83,62 @@ func (c *StreamClient) WriteRaw(b []byte) (err error) {
 	return err
 }
 
+// WritePieces writes every piece with its own write call, pausing between
+// them, so that each piece leaves as its own TCP segment (Go enables
+// TCP_NODELAY) or its own TLS record and, given the pause, reaches a reading
+// server separately.
+func (c *StreamClient) WritePieces(pieces [][]byte, pause time.Duration) (err error) {
+	c.LastWriteStart = time.Now()
+	for i, p := range pieces {
+		if len(p) == 0 {
+			continue
+		}
+
+		if i > 0 && pause > 0 {
+			time.Sleep(pause)
+		}
+
+		_ = c.conn.SetWriteDeadline(time.Now().Add(10 * time.Second))
+		_, err = c.conn.Write(p)
+		if err != nil {
+			return err
+		}
+	}
+
+	return nil
+}
+
+// SplitAt cuts b at the given offsets (ascending; offsets outside b are
+// ignored).
+func SplitAt(b []byte, offsets ...int) (pieces [][]byte) {
+	last := 0
+	for _, o := range offsets {
+		if o <= last || o >= len(b) {
+			continue
+		}
+
+		pieces = append(pieces, b[last:o])
+		last = o
+	}
+
+	return append(pieces, b[last:])
+}
+
+// ExchangePieces writes the pieces one by one (see WritePieces) and reads one
+// frame back.
+func (c *StreamClient) ExchangePieces(pieces [][]byte, pause, wait time.Duration) (res Result) {
+	err := c.WritePieces(pieces, pause)
+	if err != nil {
+		if isPeerClose(err) {
+			return Result{Outcome: Closed, Err: err.Error()}
+		}
+
+		return Result{Outcome: Failed, Err: err.Error()}
+	}
+
+	return c.Read(wait)
+}
+
 // WriteFrame writes payload preceded by its 2-byte length in one write.
 func (c *StreamClient) WriteFrame(payload []byte) (err error) {
 	return c.WriteRaw(Frame(payload))
